@@ -35,7 +35,7 @@ def main():
     m = dict(version=1, setup_cmd="./check selftest build",
         hooks=dict(guard="WENCRY_VERIF", enable="./check compiles /repo's kernel/ and valget/ sources itself with -DWENCRY_VERIF [-DWENCRY_VERIF_BUF_BLOCKS=n -DWENCRY_VERIF_HBUF_BLOCKS=m] and -include sim/sim_std.h",
                    baseline_off_cmd="./check baseline-off", source_commits=hook_commits, add_only=True),
-        engines=[dict(name="simrun", path="sim/", serves_properties=sorted(claimed), kind_free_text="deterministic simulator: baton-passing scheduler over real parked threads (std::mutex/condition_variable/thread/atomic replaced by forced include; optional -fsanitize=thread instrumentation routed into the scheduler), fopencookie file layer with storage/crash faults, OpenSSL reference model, ownership and exactly-once monitors, fork-based fresh-process oracle; driven by ./check")],
+        engines=[dict(name="simrun", path="sim/", serves_properties=sorted(claimed), kind_free_text="deterministic simulator: baton-passing scheduler over real parked threads (std::mutex/condition_variable/thread/atomic and the rest of the standard blocking vocabulary replaced by forced include, function-local-static guards wrapped at link time; optional -fsanitize=thread instrumentation routed into the scheduler), fopencookie file layer with storage/crash faults, OpenSSL reference model, ownership and exactly-once monitors, fork-based fresh-process oracle; driven by ./check")],
         checks=checks, not_applicable=[dict(property_id=k, reason=v) for k, v in sorted(na.items())],
         notes="See DESIGN.md. Known findings: KNOWN_FINDINGS.txt.")
     json.dump(m, open(os.path.join(V, "MANIFEST.json"), "w"), indent=1)
